@@ -175,6 +175,8 @@ def ad_layer(E, s):
         layer.bias.copy_(E.tensor('b', s['size_out'], 'float64'))
     for p in layer.parameters():
         p.requires_grad_(True)
+    if s.get('eval'):
+        layer.eval()
     x = E.tensor('x', list(s['batch']) + list(s['size_in']), 'float64')
     y = layer(x)
     W = dense(E, cores)
